@@ -9,7 +9,10 @@ Each case: generated source tree x prior destination state x flag set  ->
 import os, shutil, json, stat, time, re
 from sylib import *
 
-NAMES = ["a", "b", "c.txt", "d.bin", "d.dat", "e f", "ü.txt", "x.sy.tmp", ".hidden", "k.log", "data", "n1", "n2", "caf\udce9.txt", "README.md"]
+NAMES = ["a", "b", "c.txt", "d.bin", "d.dat", "e f", "ü.txt", "x.sy.tmp", ".hidden", "k.log", "data", "n1", "n2", "caf\udce9.txt", "README.md",
+         # long names (legal: <= 255 bytes), multi-byte with the three possible byte alignments (seeded change C10b: a message
+         # cut at a fixed byte offset), and long ASCII
+         "文" * 58, "x" + "文" * 58, "xy" + "文" * 58, "L" * 200]
 # ("caf\udce9.txt" is the byte string caf\xe9.txt: a file name that is not valid UTF-8)
 
 OWN_FILES = (".sy-checksums.db", ".sy-dir-cache.json", ".sy-state.json")
@@ -268,6 +271,8 @@ def run(tier="quick", seed=1, work=None, replay=None, focus="C01", ncases=None):
             src_root, dst_root, out_root = (os.path.join(case_dir, x) for x in ("src", "dst", "out"))
             if caps.get("hardlink") and focus in ("C03", "C01", "C19", "C13") and ci % 12 == 5:
                 broken_link_history(rep, contents, ci, seed, work, rng)
+            if caps.get("hardlink") and focus == "C05" and ci % 20 == 3:
+                link_group_failure_twin(rep, contents, ci, seed, work, rng)
             if focus == "C07" and ci % 2 == 0:
                 src, dst, flags, cfg, env, excl, cls = gen_c07_case(rng); rep.tag("c07." + cls)
             else:
@@ -451,6 +456,46 @@ def parallel_twin(rep, contents, ci, seed, case_dir, src_root, dst_root, flags, 
         rep.oracle_fail("C05/result-depends-on-j", f"destination after -j1 and after -j8 differ at {ch[:4]}", desc)
     elif ino_classes(snap1) != ino_classes(snapn) and rc1 == 0:
         rep.oracle_fail("C05/link-structure-depends-on-j", f"hard-link classes differ: -j1 {ino_classes(snap1)} -j8 {ino_classes(snapn)}", desc)
+
+# RLIMIT_FSIZE (16 MiB) with SIGXFSZ ignored: a copy of a larger file fails with EFBIG after 16 MiB were written,
+# i.e. late enough for the other members of its link group to be parked behind it
+FSIZE_16M = ["sh", "-c", 'trap "" XFSZ; ulimit -f 32768; exec "$@"', "sh"]
+
+def link_group_failure_twin(rep, contents, ci, seed, work, rng):
+    """C05 (seeded change C05b): a hard-link group whose data copy FAILS is handled with -j 1 and with -j N: both runs
+    terminate, with the same exit status and the same destination."""
+    case = os.path.join(work, f"lgf{ci}")
+    n = rng.range(3, 5); size = (18 + rng.below(6)) * 1024 * 1024 + rng.below(4096)
+    names = [f"d{k}/m{k}" for k in range(n)]
+    res = {}
+    for j in (1, rng.pick([4, 8])):
+        W = os.path.join(case, f"j{j}"); src = os.path.join(W, "src"); dst = os.path.join(W, "dst")
+        os.makedirs(src); os.makedirs(dst)
+        first = os.path.join(src, names[0]); os.makedirs(os.path.dirname(first))
+        with open(first, "wb") as h:
+            blk = Rng(seed * 7919 + ci).bytes(65536)
+            for _ in range(size // 65536): h.write(blk)
+            h.write(blk[:size % 65536])
+        os.utime(first, ns=(BASE_T * 10**9, BASE_T * 10**9))
+        for nm in names[1:]:
+            os.makedirs(os.path.dirname(os.path.join(src, nm))); os.link(first, os.path.join(src, nm))
+        open(os.path.join(src, "plain.txt"), "wb").write(b"plain"); os.utime(os.path.join(src, "plain.txt"), ns=(BASE_T * 10**9, BASE_T * 10**9))
+        rc, out, err = run_sy([src, dst, "--json", "-H", "-j", str(j)], W, prefix=FSIZE_16M, timeout=25)
+        # what a FAILED copy leaves behind carries the time of the failure (kernel-stamped): content and size are compared, not mtime
+        res[j] = (rc, {r: (v[0], v[1], v[2]) if v[0] == "f" else v for r, v in tree_fingerprint(snapshot(dst, contents)).items()})
+        shutil.rmtree(W, ignore_errors=True)
+    shutil.rmtree(case, ignore_errors=True)
+    (j1, (rc1, s1)), (jn, (rcn, sn)) = sorted(res.items())
+    desc = {"case": ci, "seed": seed, "flags": ["-H"], "link_group": names, "size": size, "file_size_limit": 16 * 1024 * 1024, "exits": {f"-j{j1}": rc1, f"-j{jn}": rcn}}
+    rep.tag("c05.link-group-failure-twin"); rep.case(("lgf", n, size), True)
+    if rc1 is None or rcn is None:
+        rep.oracle_fail("C05/termination-depends-on-j" if (rc1 is None) != (rcn is None) else "C05/run-does-not-terminate",
+                        f"sy -H over a link group of {n} names whose copy fails: -j{j1} {'hangs' if rc1 is None else 'exits ' + str(rc1)}, -j{jn} {'hangs' if rcn is None else 'exits ' + str(rcn)}", desc)
+    elif (rc1 == 0) != (rcn == 0):
+        rep.oracle_fail("C05/exit-depends-on-j", f"-j{j1} exits {rc1}, -j{jn} exits {rcn}", desc)
+    elif s1 != sn:
+        ch = sorted(r for r in set(s1) | set(sn) if s1.get(r) != sn.get(r))
+        rep.oracle_fail("C05/result-depends-on-j", f"destination after -j{j1} and after -j{jn} differ at {ch[:4]}", desc)
 
 def broken_link_history(rep, contents, ci, seed, work, rng):
     """O-only history (found by the C02/C17 histories): two source names of one inode are synced with -H, then the
